@@ -58,7 +58,8 @@ def absRouter (r : GRouter) : Icmp6Hunt.Router :=
     hdr := { curHopLimit := r.curHopLimit, managed := r.managedFlag, other := r.otherCondigFlag,
              preference := r.preference, lifetime := r.defaultLifetime / 1000000000,
              reachable := r.reacheableTime, retrans := r.retransTimer },
-    options := r.options }
+    -- the model keeps `Router.Prefixes` as `options.prefixes`: the abstraction reads that component from the Go field
+    options := { r.options with prefixes := r.prefixes } }
 
 def absRouters (l : List (Bytes × GRouter)) : List (Bytes × Icmp6Hunt.Router) := l.map (fun e => (e.1, absRouter e.2))
 
